@@ -1,8 +1,13 @@
-(* C08 property theorems only: each closed by `exact <lemma>` with Print Assumptions beneath. *)
-From Coq Require Import ZArith List Bool Ring.
-Require Import MV.C08.Ops MV.C08.Gen MV.C08.Model MV.C08.Proofs_Struct.
+(* C08 property theorems only: each closed by `exact <lemma>` with Print Assumptions beneath.
+   T, O : any type with operations satisfying the ring / field laws (Leibniz equality) - instantiated with R in Proofs_Real.
+   The definitions lap_*, lape_*, vl_*, tl_*, lapt_*, grad_*, adj_*, v2e_*, v2f_*, mass*_post used by the model are the
+   ones the translator regenerates from mouette/operators/*.py on every run. *)
+From Coq Require Import ZArith List Bool Ring Field Reals.
+Require Import MV.C08.Ops MV.C08.Gen MV.C08.Model MV.C08.Proofs_Struct MV.C08.Proofs_Dual MV.C08.Proofs_Graph
+  MV.C08.Proofs_Geom MV.C08.Proofs_Real.
 
-(* cotan / uniform vertex Laplacian (laplacian_op.laplacian), any per-face weights: symmetric, zero row sums *)
+(* ---- C08_sym_rowsum: symmetric with zero row sums, for every element list and every weight ---------------------- *)
+(* cotan / uniform vertex Laplacian (laplacian_op.laplacian) *)
 Theorem C08_sym_rowsum_vertex :
   forall (T : Type) (O : ops T),
     ring_theory (o0 O) (o1 O) (oadd O) (omul O) (osub O) (oopp O) eq ->
@@ -10,3 +15,208 @@ Theorem C08_sym_rowsum_vertex :
       symm T O (laplacian_gen O wf F) /\ rs0 T O (laplacian_gen O wf F).
 Proof. exact laplacian_gen_sym_rowsum. Qed.
 Print Assumptions C08_sym_rowsum_vertex.
+
+(* edge Laplacian (laplacian_op.laplacian_edges), cotan or uniform coefficients, any edge numbering *)
+Theorem C08_sym_rowsum_edges :
+  forall (T : Type) (O : ops T),
+    ring_theory (o0 O) (o1 O) (oadd O) (omul O) (osub O) (oopp O) eq ->
+    forall (cf : face -> T * T * T) (E : list edge) (F : list face),
+      symm T O (lape_gen O cf E F) /\ rs0 T O (lape_gen O cf E F).
+Proof. exact lape_gen_sym_rowsum. Qed.
+Print Assumptions C08_sym_rowsum_edges.
+
+(* dual-graph Laplacian N^T D N (laplacian_op.laplacian_triangles), any incidence list, any diagonal D; and N^T N *)
+Theorem C08_sym_rowsum_dual :
+  forall (T : Type) (O : ops T),
+    ring_theory (o0 O) (o1 O) (oadd O) (omul O) (osub O) (oopp O) eq ->
+    forall (d : list T) (P : list (Z * Z * Z)),
+      (symm T O (lapt_weighted O d P) /\ rs0 T O (lapt_weighted O d P)) /\
+      (symm T O (lapt_plain O P) /\ rs0 T O (lapt_plain O P)).
+Proof. intros T O H d P. exact (conj (lapt_weighted_sym_rowsum T O H d P) (lapt_plain_sym_rowsum T O H P)). Qed.
+Print Assumptions C08_sym_rowsum_dual.
+
+(* volume Laplacian (laplacian_op.volume_laplacian), any edge weights omega *)
+Theorem C08_sym_rowsum_volume :
+  forall (T : Type) (O : ops T),
+    ring_theory (o0 O) (o1 O) (oadd O) (omul O) (osub O) (oopp O) eq ->
+    forall (W : list (Z * Z * T)), symm T O (vl_gen O W) /\ rs0 T O (vl_gen O W).
+Proof. exact vl_gen_sym_rowsum. Qed.
+Print Assumptions C08_sym_rowsum_volume.
+
+(* tetrahedral dual Laplacian (laplacian_op.laplacian_tetrahedra): zero row sums for any neighbour function.
+   Full statement also claims symmetry; it holds exactly when the neighbour relation cell_to_cell is symmetric
+   (a C03 fact about conforming meshes), which is tested per case by the correspondence and the oracle, not proved here. *)
+Theorem C08_rowsum_tetra_partial :
+  forall (T : Type) (O : ops T),
+    ring_theory (o0 O) (o1 O) (oadd O) (omul O) (osub O) (oopp O) eq ->
+    oofZ O 0%Z = o0 O ->
+    (forall n : nat, oofZ O (Z.of_nat (S n)) = oadd O (o1 O) (oofZ O (Z.of_nat n))) ->
+    forall (nb : Z -> list Z) (nc : Z), rs0 T O (tl_gen O nb nc).
+Proof. exact tl_gen_rowsum. Qed.
+Print Assumptions C08_rowsum_tetra_partial.
+
+(* ---- C08_stiffness ---------------------------------------------------------------------------------------------- *)
+(* cotan Laplacian = independently assembled P1 stiffness matrix, entrywise, for every list of non-degenerate triangles *)
+Theorem C08_stiffness :
+  forall (T : Type) (O : ops T),
+    field_theory (o0 O) (o1 O) (oadd O) (omul O) (osub O) (oopp O) (odiv O) (oinv O) eq ->
+    two O <> o0 O ->
+    forall (V : list (vec T)) (F : list face),
+      (forall f, In f F -> nondeg T O V f) ->
+      forall i j, entry O (laplacian_cotan O (cot_simple O) V F) i j = entry O (stiffness O V F) i j.
+Proof. exact cotan_laplacian_is_stiffness. Qed.
+Print Assumptions C08_stiffness.
+
+(* Re(G^* A G), accumulated face by face from the generated gradient rows, = cotan Laplacian, for every choice of direct
+   orthonormal tangent bases *)
+Theorem C08_gram :
+  forall (T : Type) (O : ops T),
+    field_theory (o0 O) (o1 O) (oadd O) (omul O) (osub O) (oopp O) (odiv O) (oinv O) eq ->
+    two O <> o0 O ->
+    forall (V : list (vec T)) (F : list face) (bases : list (vec T * vec T)),
+      Forall2 (fun f b => nondeg T O V f /\ face_basis_ok T O V f b) F bases ->
+      forall i j, entry O (laplacian_cotan O (cot_simple O) V F) i j = entry O (gram O V F bases) i j.
+Proof. exact cotan_laplacian_is_gram. Qed.
+Print Assumptions C08_gram.
+
+(* ---- C08_gradient_affine: G applied to x |-> <a,x> + b0 is (<a,X>, <a,Y>) in each face basis ---------------------- *)
+Theorem C08_gradient_affine :
+  forall (T : Type) (O : ops T),
+    field_theory (o0 O) (o1 O) (oadd O) (omul O) (osub O) (oopp O) (odiv O) (oinv O) eq ->
+    two O <> o0 O ->
+    forall (V : list (vec T)) (iT : Z) (f : face) (b : vec T * vec T) (a : vec T) (b0 : T),
+      nondeg T O V f -> face_basis_ok T O V f b ->
+      forall fv : Z -> T,
+        (let '(p, q, r) := f in
+         fv p = oadd O (vdot O a (vnth O V p)) b0 /\ fv q = oadd O (vdot O a (vnth O V q)) b0 /\
+         fv r = oadd O (vdot O a (vnth O V r)) b0) ->
+        apply_rows T O (grad_face O (grad_complex O) V (iT, (f, b))) fv = (vdot O a (fst b), vdot O a (snd b)).
+Proof. exact gradient_affine_face. Qed.
+Print Assumptions C08_gradient_affine.
+
+(* the real gradient (as_complex=False) has the same coefficients on rows 2 iT, 2 iT + 1; shape (2|F|, |V|) *)
+Theorem C08_gradient_real_rows :
+  forall (T : Type) (O : ops T) (iT A B C : Z) (xA yA xB yB xC yC aT : T),
+    grad_real O iT A B C xA yA xB yB xC yC aT =
+    flat_map (fun r : Z * Z * (T * T) => let '(t, v, (re, im)) := r in ((2 * t)%Z, v, re) :: ((2 * t + 1)%Z, v, im) :: nil)
+             (grad_complex O iT A B C xA yA xB yB xC yC aT)
+    /\ grad_real_nrows = (fun M => (M * 2)%Z) /\ (forall M N : Z, grad_shape M N = (M, N)).
+Proof. exact grad_real_is_complex. Qed.
+Print Assumptions C08_gradient_real_rows.
+
+(* ---- C08_mass ---------------------------------------------------------------------------------------------------- *)
+Theorem C08_mass :
+  forall (T : Type) (O : ops T),
+    ring_theory (o0 O) (o1 O) (oadd O) (omul O) (osub O) (oopp O) eq ->
+    (forall (d : list T) i j, i <> j -> entry O (diag d) i j = o0 O) /\
+    (forall inv sq n V F, mass_vertices O inv sq n V F = diag (map (massv_post O inv sq) (vertex_acc O n F (areas O V F)))) /\
+    (forall inv sq x, massv_post O inv sq x =
+         let y := if sq then osqrt O x else x in if inv then odiv O (o1 O) y else y) /\
+    (forall inv x, massf_post O inv x = if inv then odiv O (o1 O) x else x) /\
+    (forall inv x, masse_post O inv x = if inv then odiv O (o1 O) x else x) /\
+    (forall inv sq x, massvv_post O inv sq x = let y := if sq then osqrt O x else x in if inv then odiv O (o1 O) y else y) /\
+    (forall inv sq x, massvc_post O inv sq x = let y := if sq then osqrt O x else x in if inv then odiv O (o1 O) y else y) /\
+    (forall n V F, faces_in_range n F ->
+        total O (mass_vertices O false false n V F) = omul O (three O) (sumT O (areas O V F))) /\
+    (forall V F, total O (mass_faces O false V F) = sumT O (areas O V F)).
+Proof. exact mass_matrices_diagonal_totals. Qed.
+Print Assumptions C08_mass.
+
+(* tetrahedral meshes: vertex volumes sum to 4 x the total volume, cell volumes to the total volume *)
+Theorem C08_mass_volume :
+  forall (T : Type) (O : ops T),
+    ring_theory (o0 O) (o1 O) (oadd O) (omul O) (osub O) (oopp O) eq ->
+    (forall n V C, cells_in_range n C ->
+        total O (mass_vol_vertices O false false n V C) = omul O (omul O (two O) (two O)) (sumT O (cell_volumes O V C))) /\
+    (forall V C, total O (mass_vol_cells O false false V C) = sumT O (cell_volumes O V C)).
+Proof. exact volume_mass_totals. Qed.
+Print Assumptions C08_mass_volume.
+
+(* the weights and shapes the property fixes: area/3 per adjacent face on an edge, whole area / volume per incident vertex,
+   1/len(face) in the vertex-to-face operator; |V| x |V| Laplacians and adjacency, |V| x |E| vertex-edge operator,
+   |F| x |V| vertex-face operator (the code's orientation; its docstring says |V| x |F|) *)
+Theorem C08_documented_weights_shapes :
+  forall (T : Type) (O : ops T),
+    (forall a : T, mass_edge_share O a = odiv O a (three O)) /\
+    (forall a : T, massv_contrib a = a) /\ (forall a : T, massvv_contrib a = a) /\
+    (forall l : T, v2f_weight O l = odiv O (o1 O) l) /\
+    (forall n : Z, lap_shape n = (n, n)) /\ (forall n m : Z, gl_shape n m = (n, n)) /\
+    (forall n m : Z, adj_shape n m = (n, n)) /\ (forall n m : Z, v2e_shape n m = (n, m)) /\
+    (forall n m : Z, v2f_shape n m = (m, n)).
+Proof. exact documented_weights_shapes. Qed.
+Print Assumptions C08_documented_weights_shapes.
+
+(* ---- C08_graph --------------------------------------------------------------------------------------------------- *)
+Theorem C08_graph_laplacian :
+  forall (T : Type) (O : ops T),
+    ring_theory (o0 O) (o1 O) (oadd O) (omul O) (osub O) (oopp O) eq ->
+    oofZ O 0%Z = o0 O ->
+    forall (n : Z) (E : list edge), edges_in_range n E ->
+      forall i j,
+        entry O (graph_laplacian O n E) i j =
+        osub O (if (i =? j)%Z then ofnat O (length (nbrs E i)) else o0 O) (entry O (adjacency (w_one O E) E) i j).
+Proof. exact graph_laplacian_degree_adjacency. Qed.
+Print Assumptions C08_graph_laplacian.
+
+Theorem C08_incidence_patterns :
+  forall (T : Type) (O : ops T),
+    (forall (w : list (T * T)) (E : list edge),
+       adjacency w E =
+       flat_map (fun t : Z * (edge * (T * T)) => let '(e, ((a, b), (v0, v1))) := t in (a, b, v0) :: (b, a, v1) :: nil)
+                (indexed (combine E w))
+       /\ adj_vals_one O = (o1 O, o1 O) /\ (forall d : T, adj_vals_length d = (d, d)) /\ (forall x : T, adj_vals_custom x = (x, x))) /\
+    (forall (oriented : bool) (E : list edge),
+       vertex_to_edge O oriented E =
+       flat_map (fun t : Z * edge => let '(e, (a, b)) := t in
+                   (a, e, if oriented then oopp O (o1 O) else o1 O) :: (b, e, o1 O) :: nil) (indexed E)) /\
+    (forall F : list face,
+       vertex_to_face O F =
+       flat_map (fun t : Z * face => let '(iT, (p, q, r)) := t in
+                   let w := odiv O (o1 O) (ofnat O 3) in (iT, p, w) :: (iT, q, w) :: (iT, r, w) :: nil) (indexed F)).
+Proof.
+  intros T O. exact (conj (adjacency_pattern T O) (conj (vertex_to_edge_pattern T O) (vertex_to_face_pattern T O))).
+Qed.
+Print Assumptions C08_incidence_patterns.
+
+(* ---- over the reals: the model of the code as it is (geometry.cotan, geometry.face_basis through SurfaceConnectionFaces) -- *)
+(* a face is non-degenerate over R as soon as its three vertex indices are distinct and its normal is not the zero vector *)
+Theorem C08_real_nondeg :
+  forall (V : list (vec R)) (p q r : Z),
+    p <> q -> q <> r -> r <> p ->
+    vcross Rops (vsub Rops (vnth Rops V q) (vnth Rops V p)) (vsub Rops (vnth Rops V r) (vnth Rops V p)) <> (0, 0, 0)%R ->
+    nondeg R Rops V (p, q, r).
+Proof. exact nondeg_R. Qed.
+Print Assumptions C08_real_nondeg.
+
+(* cotan Laplacian with the code's cotangent = stiffness matrix = Re(G^* A G) with the code's face bases *)
+Theorem C08_real_laplacian :
+  forall (V : list (vec R)) (F : list face),
+    (forall f, In f F -> nondeg R Rops V f) ->
+    forall i j,
+      entry Rops (laplacian_cotan Rops (cot_code Rops) V F) i j = entry Rops (stiffness Rops V F) i j /\
+      entry Rops (laplacian_cotan Rops (cot_code Rops) V F) i j = entry Rops (gram Rops V F (conn_bases Rops V F)) i j.
+Proof. exact real_cotan_laplacian. Qed.
+Print Assumptions C08_real_laplacian.
+
+Theorem C08_real_gradient_affine :
+  forall (V : list (vec R)) (F : list face) (iT : Z) (f : face) (a : vec R) (b0 : R),
+    nondeg R Rops V f ->
+    let b := (let '(pa, pb, pc) := conn_face F f in
+              let '(X, Y, _) := face_basis Rops (vnth Rops V pa) (vnth Rops V pb) (vnth Rops V pc) in (X, Y)) in
+    forall fv : Z -> R,
+      (let '(p, q, r) := f in
+       fv p = (vdot Rops a (vnth Rops V p) + b0)%R /\ fv q = (vdot Rops a (vnth Rops V q) + b0)%R /\
+       fv r = (vdot Rops a (vnth Rops V r) + b0)%R) ->
+      apply_rows R Rops (grad_face Rops (grad_complex Rops) V (iT, (f, b))) fv = (vdot Rops a (fst b), vdot Rops a (snd b)).
+Proof. exact real_gradient_affine. Qed.
+Print Assumptions C08_real_gradient_affine.
+
+(* face areas and vertex masses are positive on a non-degenerate mesh in which every vertex lies in a face *)
+Theorem C08_real_mass_positive :
+  forall (V : list (vec R)) (F : list face) (n : Z),
+    (forall f, In f F -> nondeg R Rops V f) ->
+    (forall u, (0 <= u < n)%Z -> exists p q r, In (p, q, r) F /\ (u = p \/ u = q \/ u = r)) ->
+    Forall (fun x => (0 < x)%R) (areas Rops V F) /\
+    Forall (fun x => (0 < x)%R) (vertex_acc Rops n F (areas Rops V F)).
+Proof. exact real_mass_positive. Qed.
+Print Assumptions C08_real_mass_positive.
